@@ -16,6 +16,7 @@ type (
 		limitConfigLock       sync.RWMutex
 		connLimiter           *connLimiter
 		connLimiterLock       sync.RWMutex
+		slotHolders           sync.Map // session -> *connLimiter whose slot it holds
 		totalQPSLimiter       *qpsLimiter
 		totalQPSLimiterLock   sync.RWMutex
 		handlerQPSLimiter     map[string]*qpsLimiter
@@ -68,8 +69,8 @@ func (o *Overloader) PostDial(sess erpc.PreSession, isRedial bool) *erpc.Status 
 
 // PostAccept checks connection overload.
 // If overload, print error log and close the connection.
-func (o *Overloader) PostAccept(_ erpc.PreSession) *erpc.Status {
-	if o.takeConn() {
+func (o *Overloader) PostAccept(sess erpc.PreSession) *erpc.Status {
+	if o.takeConnFor(sess) {
 		return nil
 	}
 	msg := fmt.Sprintf("connection overload, limit=%d, now=%d",
@@ -79,8 +80,8 @@ func (o *Overloader) PostAccept(_ erpc.PreSession) *erpc.Status {
 }
 
 // PostDisconnect releases connection count.
-func (o *Overloader) PostDisconnect(_ erpc.BaseSession) *erpc.Status {
-	o.releaseConn()
+func (o *Overloader) PostDisconnect(sess erpc.BaseSession) *erpc.Status {
+	o.releaseConnFor(sess)
 	return nil
 }
 
@@ -198,6 +199,28 @@ func (o *Overloader) releaseConn() {
 		o.connLimiter.release()
 	}
 	o.connLimiterLock.RUnlock()
+}
+
+// takeConnFor takes a connection slot for the session and remembers which
+// limiter granted it: the disconnect hook also runs for connections that an
+// accept hook rejected, and those must not release a slot.
+func (o *Overloader) takeConnFor(sess interface{}) bool {
+	o.connLimiterLock.RLock()
+	l := o.connLimiter
+	bol := l == nil || l.take()
+	o.connLimiterLock.RUnlock()
+	if bol && l != nil {
+		o.slotHolders.Store(sess, l)
+	}
+	return bol
+}
+
+// releaseConnFor releases the slot held by the session, if it holds one.
+func (o *Overloader) releaseConnFor(sess interface{}) {
+	if l, ok := o.slotHolders.Load(sess); ok {
+		o.slotHolders.Delete(sess)
+		l.(*connLimiter).release()
+	}
 }
 
 func (o *Overloader) takeTotalQPS() bool {
